@@ -60,7 +60,12 @@ class ProjectResultRegistry(ProjectRegistry):
         list[Path]
             Paths to previous results with name ``base_name``.
         """
-        return sorted(self.directory.glob(f"{base_name}_run_*"))
+        run_pattern = re.compile(rf"{re.escape(base_name)}_run_\d{{4}}")
+        return sorted(
+            path
+            for path in self.directory.iterdir()
+            if path.is_dir() and run_pattern.fullmatch(path.name) is not None
+        )
 
     def _latest_result_path_fallback(self, name: str, *, latest: bool = False) -> Path:
         """Fallback when a user forgets to specify the run to get a result.
@@ -86,7 +91,9 @@ class ProjectResultRegistry(ProjectRegistry):
         ValueError
             Raised if result does not exist.
         """
-        if re.match(self.result_pattern, name) is None:
+        # A name with run specifier which isn't a stored run might be a result name itself.
+        has_run_specifier = re.match(self.result_pattern, name) is not None
+        if not has_run_specifier or not self.is_item(self._directory / name):
             if latest is False:
                 warn(
                     UserWarning(
@@ -97,7 +104,7 @@ class ProjectResultRegistry(ProjectRegistry):
                     stacklevel=3,
                 )
             previous_result_paths = self.previous_result_paths(name) or [Path(name)]
-            name = previous_result_paths[-1].stem
+            name = previous_result_paths[-1].name
         path = self._directory / name
         if self.is_item(path):
             return path
@@ -122,7 +129,7 @@ class ProjectResultRegistry(ProjectRegistry):
         previous_results = self.previous_result_paths(base_name)
         if not previous_results:
             return f"{base_name}_run_0000"
-        latest_result_run_nr = int(previous_results[-1].stem.replace(f"{base_name}_run_", ""))
+        latest_result_run_nr = int(previous_results[-1].name[len(f"{base_name}_run_") :])
         return f"{base_name}_run_{latest_result_run_nr+1:04}"
 
     def save(self, name: str, result: Result):
